@@ -9,6 +9,7 @@
     reached only by driving the real binary. *)
 From Coq Require Import List ZArith NArith Bool Lia.
 From AG Require Import Str F64 Value Json Expr Ops Pipeline Stream_proofs Local_proofs Compile_proofs Split_proofs NoPanic_proofs.
+From AG Require Generated.
 Import ListNotations.
 
 (** expression evaluation (all operators, all functions, all operand types) never panics:
@@ -66,3 +67,18 @@ Proof. exact error_counted_once. Qed.
 Print Assumptions C11_error_reported_once.
 
 (** after an aggregation rows an operator rejects are skipped silently (unwrap_or(None)): see C03_adapter_rows *)
+
+(** *** the audited inventory of explicitly partial operations.
+    srcfacts.py counts, on every run, the `unwrap()` / `expect(` / `panic!` / `unreachable!` / `assert!` /
+    `todo!` sites of every source file outside its test module.  The list below is the inventory that was
+    audited (dispositions in DESIGN.md, section 4 / C11): a new site anywhere in the source changes
+    Generated.panic_inventory, this statement stops checking, and C11 reports that the property is no
+    longer shown to hold until the new site is audited. *)
+Local Open Scope string_scope.
+Example C11_panic_inventory_is_the_audited_one :
+  Generated.panic_inventory =
+  [("src/alias.rs", 3%N); ("src/data.rs", 4%N); ("src/funcs.rs", 1%N); ("src/lang.rs", 3%N);
+   ("src/operator.rs", 1%N); ("src/operator/expr.rs", 1%N); ("src/operator/parse.rs", 2%N);
+   ("src/operator/percentile.rs", 1%N); ("src/operator/split.rs", 1%N); ("src/printer.rs", 9%N);
+   ("src/typecheck.rs", 1%N)].
+Proof. reflexivity. Qed.
